@@ -133,7 +133,8 @@ def verus_failures_on(repo_dir, prop, tier):
 
 
 def sensitivity_selftest(prop, tier, seed):
-    """thorough tier only: every seeded property-breaking change recorded for `prop` (seeded/<id>/) is applied to a scratch
+    """thorough tier only: seeded property-breaking changes recorded for `prop` (seeded/<id>/; at most VERIF_SENS_MAX = 3 per
+    run, rotated by the seed) are applied to a scratch
     copy of /repo's current source (under /tmp, removed afterwards) and the Verus units are re-run on it.  This does not
     decide the property; it measures, on every thorough run, that the obligations still notice realistic breakage."""
     import shutil
@@ -142,10 +143,13 @@ def sensitivity_selftest(prop, tier, seed):
     metas = sorted(glob.glob(os.path.join(VERIF, 'seeded', '*', 'meta.json')))
     if seed:
         metas = metas[seed % len(metas):] + metas[:seed % len(metas)] if metas else metas
+    budget = int(os.environ.get('VERIF_SENS_MAX', '3'))   # changes per run (the seed rotates which ones): keeps a thorough run to minutes
     for mp in metas:
         m = json.load(open(mp))
         if m.get('property') != prop:
             continue
+        if len(out) >= budget:
+            break
         scratch = tempfile.mkdtemp(prefix='verif_sens_%s_' % m['id'])
         try:
             shutil.copytree(os.path.join(D.REPO, 'src'), os.path.join(scratch, 'src'))
